@@ -5,6 +5,7 @@ import TV.Properties.C17
 #print axioms TV.C17.C17_chain_transparent
 #print axioms TV.C17.C17_routes_served
 #print axioms TV.C17.C17_others_rejected
+#print axioms TV.C17.C17_subtree_served
 #print axioms TV.C17.C17_each_listener_has_its_router
 #print axioms TV.C17.pinned_C17_https_routes_404
 #print axioms TV.C17.pinned_C17_logrequest_drains_body
